@@ -304,7 +304,11 @@ def measure(tier, seed):
             Tarr = np.atleast_1d(Tin)
             mB = xb[None, :] * Tarr[:, None] ** 2
             mF = xf[None, :] * Tarr[:, None] ** 2
-            p = Pot(mB if len(Tarr) > 1 else mB[0], mF if len(Tarr) > 1 else mF[0], dB, dF, useDefaultInterpolation=False, imaginaryOption=PT.EImaginaryOption.PRINCIPAL_PART)
+            # every third spectrum: one number of degrees of freedom shared by all species ("float or array_like" in the docstring)
+            if k % 3 == 2:
+                dB, dF = np.full(nb, dB[0]), np.full(nf, dF[0])
+            p = Pot(mB if len(Tarr) > 1 else mB[0], mF if len(Tarr) > 1 else mF[0], float(dB[0]) if k % 3 == 2 else dB, float(dF[0]) if k % 3 == 2 else dF,
+                    useDefaultInterpolation=False, imaginaryOption=PT.EImaginaryOption.PRINCIPAL_PART)
             got = np.atleast_1d(np.asarray(p.evaluate(None, Tin), float))
             ref = np.array([t**4 / (2 * math.pi**2) * (sum(d * jref(x, False) for d, x in zip(dB, xb)) + sum(d * jref(x, True) for d, x in zip(dF, xf))) for t in Tarr])
             scale = np.array([t**4 / (2 * math.pi**2) * (dB.sum() + dF.sum()) for t in Tarr])
